@@ -1,6 +1,6 @@
 (** Property C03 -- the parser follows the DEC/ANSI state machine.
     Only pinned statements, closed by [exact], with their assumptions printed. *)
-From Avt Require Import Model.Parser Spec.Williams Proofs.Inv Proofs.ParserTable Proofs.ParserInv Proofs.ParserSim Spec.Functions Proofs.DispatchTable.
+From Avt Require Import Model.Parser Spec.Williams Proofs.Inv Proofs.ParserTable Proofs.ParserInv Proofs.ParserSim Spec.Functions Proofs.DispatchTable Oracles.Step Proofs.SpecParser.
 
 (** C03.1  For every parser state and every input character (all of N, hence every Unicode scalar value) the next state, the kind of action and the entry action [clear] of the regenerated [Parser::feed] table agree with Williams' diagram + the four deviations. *)
 Theorem C03_table : forall (s : pstate) (c : N), trans_model s c = williams s c.
@@ -73,3 +73,10 @@ Theorem C03_ansi_modes : forall v, ansi_mode_gen v = ansi_mode_spec v.
 Proof. exact ansi_mode_table. Qed.
 Check C03_ansi_modes : forall v, ansi_mode_gen v = ansi_mode_spec v.
 Print Assumptions C03_ansi_modes.
+
+(** the specification parser run on the implementation (Williams' diagram + the hand-written function table, no generated
+    table involved) is, step for step, the model's parser *)
+Theorem C03_spec_parser : forall p c, PInv p -> feedM p c = Ok (spec_feed p c).
+Proof. exact spec_feed_is_feedM. Qed.
+Check C03_spec_parser : forall p c, PInv p -> feedM p c = Ok (spec_feed p c).
+Print Assumptions C03_spec_parser.
